@@ -548,6 +548,20 @@ fn apply_cops(world: &mut World) {
 #[derive(SystemSet, Debug, Hash, PartialEq, Eq, Clone, Copy)]
 struct VerifSet;
 
+/// Mirrors `on_timer(mutations_timeout)` of `cleanup_acks`: the same `Timer`, ticked with the same `Time` every frame
+/// (system-level run conditions are evaluated every frame).
+#[derive(Resource)]
+struct CleanupMirror {
+    timer: Timer,
+    fired: bool,
+}
+
+fn mirror_cleanup_timer(time: Res<Time>, mut m: ResMut<CleanupMirror>) {
+    let d = time.delta();
+    m.timer.tick(d);
+    m.fired = m.timer.just_finished();
+}
+
 fn mark_ran(mut ran: ResMut<ReplicationRan>) {
     ran.0 = true;
 }
@@ -590,6 +604,8 @@ impl Sim {
             .init_resource::<PreMap>()
             .init_resource::<ReplicationRan>()
             .init_resource::<DisconnectLog>()
+            .insert_resource(CleanupMirror { timer: Timer::new(Duration::from_millis(cfg.timeout_ms), TimerMode::Repeating), fired: false })
+            .add_systems(PreUpdate, mirror_cleanup_timer)
             .add_systems(Update, (log_server_side, log_disconnect_requests, apply_sops).chain())
             .add_observer(observe_ct)
             // same shape as `send_replication`: the change detection is only evaluated while the server runs
@@ -864,6 +880,9 @@ impl Sim {
         let ran = self.server.world().resource::<ReplicationRan>().0;
         let t = self.server.world().resource::<ServerTick>().get();
         out.push(format!("srv tick={t} ran={}", ran as u8));
+        if self.server.world().resource::<CleanupMirror>().fired {
+            out.push("cleanup-timer".into());
+        }
         // drain what the server handed to the backend
         let sent: Vec<(Entity, usize, Bytes)> = self.server.world_mut().resource_mut::<RepliconServer>().drain_sent().collect();
         let slots = self.server.world().resource::<ClientEnts>().0.clone();
